@@ -21,11 +21,11 @@ def run(ctx):
     rng = random.Random(ctx.seed)
     pool = rng.sample(dqlib.UNIT_SETTINGS, 3)
     hists = []
-    ops_all = dqlib.gen_histories(ctx, ctx.pick(5, 7), [1, 2, 4], only_full=True)
+    ops_all = dqlib.gen_histories(ctx, ctx.pick(5, 6), [1, 2, 4], only_full=True)
     settings = [(3, 2), (1, 7), (2, 1)] if q else [(3, 2), (1, 7), (2, 1), (6, 3), (1, 1), (4, 1000)]
     for si, (mf, se) in enumerate(settings):
         for i, ops in enumerate(ops_all):
-            if not q or (i + si + ctx.seed) % 3 == 0:
+            if (i + si + ctx.seed) % 3 == 0:
                 hists.append(dqlib.unit_history(len(hists), ops, mf, se, False))
     nshort = len(hists)
     for i in range(ctx.pick(40, 600)):
@@ -78,7 +78,7 @@ def run(ctx):
     cov["rule"] = ("histories = TLC-enumerated put/take/reopen sequences of the contract (length %d, 3 size classes incl. one "
                    "larger than the segment) x settings %s + seeded random histories of 100-2000 ops with byte sizes "
                    "0..3x segment, maxBytesPerFile from 1, syncEvery from 1; every take/depth event decided by "
-                   "QueueContractTrace.tla; distinct = distinct (setting, op list)" % (ctx.pick(5, 7), settings))
+                   "QueueContractTrace.tla; distinct = distinct (setting, op list)" % (ctx.pick(5, 6), settings))
     h0 = hists[nshort] if len(hists) > nshort else hists[0]
     ctx.sample(dict(maxbytes=h0["maxbytes"], syncevery=h0["syncevery"], first_ops=h0["ops"][:12]))
     ctx.sample(dict(maxbytes=hists[0]["maxbytes"], syncevery=hists[0]["syncevery"], ops=hists[0]["ops"]))
